@@ -57,12 +57,17 @@ fn build_and_check(rows: usize, cols: usize, cells: &[(usize, usize)], order: &[
     Ok(())
 }
 fn from_vecs_check(rows: usize, cols: usize, cells: &[(usize, usize)]) -> Result<(), String> {
+    from_vecs_variant(rows, cols, cells, false)?;
+    from_vecs_variant(rows, cols, cells, true)
+}
+fn from_vecs_variant(rows: usize, cols: usize, cells: &[(usize, usize)], descending: bool) -> Result<(), String> {
     let mut m = SM::new();
     let mut val = vec![];
     let mut ri = vec![];
     let mut cs = vec![0usize; cols + 1];
     let mut sorted: Vec<(usize, usize)> = cells.to_vec();
-    sorted.sort_by_key(|c| (c.1, c.0));
+    // a valid compressed-column form does not need ascending rows inside a column
+    sorted.sort_by_key(|c| (c.1, if descending { usize::MAX - c.0 } else { c.0 }));
     for &(i, j) in &sorted {
         m.insert((i, j), cell_value(i, j, cols));
         val.push(cell_value(i, j, cols));
@@ -72,8 +77,20 @@ fn from_vecs_check(rows: usize, cols: usize, cells: &[(usize, usize)]) -> Result
     for j in 0..cols {
         cs[j + 1] += cs[j];
     }
-    let s = Sparse::from_vecs(rows, cols, val, ri, cs);
-    views_check(&s, rows, cols, &m).map_err(|e| format!("from_vecs: {}", e))
+    let mut s = Sparse::from_vecs(rows, cols, val, ri, cs);
+    views_check(&s, rows, cols, &m).map_err(|e| format!("from_vecs (descending rows: {}): {}", descending, e))?;
+    if rows * cols <= 9 {
+        for (n, &(i, j)) in cells.iter().enumerate() {
+            let v = Rat::int(200 + n as i64);
+            s.insert(i, j, v);
+            m.insert((i, j), v);
+            views_check(&s, rows, cols, &m).map_err(|e| format!("from_vecs (descending rows: {}), then overwrite ({},{}): {}", descending, i, j, e))?;
+        }
+        let t = s.transpose();
+        let mt: SM = m.iter().map(|(k, v)| ((k.1, k.0), *v)).collect();
+        views_check(&t, cols, rows, &mt).map_err(|e| format!("from_vecs (descending rows: {}), then transpose: {}", descending, e))?;
+    }
+    Ok(())
 }
 
 fn shape_space(ctx: &Ctx, rows: usize, cols: usize) {
